@@ -270,3 +270,10 @@ def shrink(c):
         nm = bytes.fromhex(n)
         if len(nm) > 1 and nm[:-1].hex() not in {x[0] for x in b}:
             yield {"branches": b[:k] + [[nm[:-1].hex(), kd, t]] + b[k + 1:], "perm": c["perm"], "ignore": c["ignore"]}
+
+
+# functions of /repo whose executed-line coverage by this run is reported in the evidence
+ANCHORS = [('swh/model/git_objects.py', 'snapshot_git_object'),
+           ('swh/model/model.py', 'SnapshotBranch.check_target'),
+           ('swh/model/model.py', 'Snapshot._compute_hash_from_attributes'),
+           ('swh/model/model.py', 'Snapshot.from_dict')]
